@@ -18,10 +18,15 @@ PROP = {'title': 'Vector, dim and matrix arithmetic obeys the exact ring and mod
  'binaries': [{'name': 'C14',
                'sources': ['harness/C14.cpp', 'harness/C14_m3.cpp', 'harness/C14_m4.cpp', 'harness/C14_m4b.cpp', 'harness/C14_rect.cpp',
                            'harness/C14_rect_b.cpp', 'harness/C14_rect_c.cpp', 'harness/C14_rect_d.cpp', 'harness/C14_vec.cpp',
-                           'harness/C14_dim.cpp'],
+                           'harness/C14_dim.cpp', 'harness/C14_narrow.cpp', 'harness/C14_narrow_mixed_a.cpp', 'harness/C14_narrow_mixed_b.cpp',
+                           'harness/C14_strided_vec.cpp', 'harness/C14_strided_vec4.cpp', 'harness/C14_strided_dim.cpp',
+                           'harness/C14_strided_mat2.cpp', 'harness/C14_strided_mat3.cpp'],
                'libs': [],
                'flavour': 'asan'}],
- 'compile_probes': [{'name': 'vector_less_mixed_storage', 'source': 'harness/C14_probe_less.cpp', 'flags': []}],
+ 'compile_probes': [{'name': 'vector_less_mixed_storage', 'source': 'harness/C14_probe_less.cpp', 'flags': []},
+                    {'name': 'matrix_vector_mixed_scalars', 'source': 'harness/C14_probe_mixed.cpp', 'flags': ['-DC14_PROBE_KIND=1']},
+                    {'name': 'matrix_arithmetic_mixed_scalars', 'source': 'harness/C14_probe_mixed.cpp', 'flags': ['-DC14_PROBE_KIND=2']},
+                    {'name': 'vector_dim_arithmetic_mixed_scalars', 'source': 'harness/C14_probe_mixed.cpp', 'flags': ['-DC14_PROBE_KIND=3']}],
  'deadline': {'quick': 300, 'thorough': 1500},
  'rule': 'nested loops over explicit families, nothing sampled. 2x2: all 256 matrices over {-1,0,1,2} (unary laws, scalars -9..9), all '
          '65536 pairs (+,-,==,!=, product in the 4 static/view storage combinations, (AB)^T=B^T A^T, det and adjugate (anti)multiplicative), '
@@ -42,9 +47,30 @@ PROP = {'title': 'Vector, dim and matrix arithmetic obeys the exact ring and mod
          'operands); triples over [-3,3], [-2,2], [-1,1]^3, [-1,1]^4 (quick {0,1}^4) for the module laws incl. dot(u,cross(v,w)) = '
          'determinant(rows u,v,w). A case is one (law group, operand tuple); it is non-trivial when no operand is zero or the identity / '
          'the operands differ / the determinant is non-zero / compared operands are equal or differ in exactly one position (per-group '
-         'predicate next to each vrt::nontrivial call)',
- 'assumptions': ['scalar type int only (plus long for the mixed-type operators and structure_cast); entries are small enough that no '
-                 'intermediate overflows',
+         'predicate next to each vrt::nontrivial call). '
+         'Narrow scalars (C14_narrow*.cpp): i8, u8, i16 and the mixed pairs (i8,i16),(i16,i8),(u8,i8),(i8,u8),(i16,int),(int,i8),(i8,long),(long,i16) '
+         'for every free operator whose result value type is decltype(L op R) (vector/dim + - * / unary-, scalar * /, vector(op)dim, matrix + - *, '
+         'scalar *, matrix*vector): all pairs of 2-vectors / 1x2.2x1 / 2x1.1x2 / 2x2 operands over the entry set {min, -100, -1, 0, 1, 100, max} of '
+         'the type (a 4-value subset for 2x2.2x2 and sums), i8 also 3-vectors, 1x3.3x1 and 3x3 over {-128,0,127} (quick {-128,127}) times all '
+         '3-vectors; oracle in long, cases whose exact result or a partial sum of a fold leaves the declared result type are skipped before the '
+         'call; the declared result type is a static_assert; non-trivial = some result component lies outside an operand type. Non-contiguous '
+         'view storages (C14_strided*.cpp): strided (stride 2 and 3), reversed and pitched-block storages behind vector, dim (N=2,3,4) and matrix '
+         '(2x2 all pairs over {-1,0,1,2}, quick {-1,0,2}; 2x3 over {0,1}+distinct; 3x3 structured family), every pair (u,v) x two decoy modes '
+         '(memory between viewed elements = values occurring nowhere / = the other operand at the same linear position): == != < <= > >=, '
+         '+ - * / unary-, scalar ops, compound assignment, assignment and construction in both directions, structure_cast, narrow_cast, push_back, '
+         'to_dim/to_vector, dot, cross, length_square, contents, at/named/get_unsafe, matrix at_r/at_r_c/mRC/row views, transpose, product, '
+         'determinant, adjugate, inverse, delete_row_and_column, identity, matrix*vector; after every operation the whole exact-size heap buffer is '
+         'compared (decoys unchanged, read-only operations write nothing)',
+ 'assumptions': ['narrow/mixed scalars: only operators whose declared result type is decltype(L op R) are checked on values that leave the '
+                 'operand range; functions returning the operand type T (dot, determinant, cross, compound assignment, transform_point) narrow by '
+                 'design and are checked with int only; unsigned short / unsigned int mixing is excluded (promotion to int overflows / modular '
+                 'arithmetic is not an exact scalar)',
+                 'mixed Left != Right matrix*vector is both evaluated in the binary and registered as compile probe matrix_vector_mixed_scalars: a '
+                 'change that stops it compiling is reported through the probe (the binary then does not build)',
+                 'assignment between two views of the same storage type is the implicit copy assignment of object (it rebinds the view) and is '
+                 'not exercised; stride and pitch are therefore part of the harness storage types',
+                 'law families use int (plus long for mixed-type operators and structure_cast) with entries small enough that no intermediate '
+                 'overflows; promotion-sensitive scalars are covered by the narrow shards',
                  'inverse is checked only for unimodular matrices (det = +-1), where 1/det is exact in integer arithmetic; det = 0 is a '
                  'division by zero and other determinants truncate',
                  'vector/dim division: nothing iff some divisor is zero, otherwise the truncating quotient per component (math::div)',
